@@ -49,6 +49,11 @@ func main() {
 		os.Stdout.WriteString(c03.Solo(in))
 		return
 	}
+	if len(os.Args) > 2 && os.Args[1] == "-dev" {
+		zzsimrt.Configure(len(zzsimrt.SiteTab))
+		devMain(os.Args[2:])
+		return
+	}
 	zzsimrt.Configure(len(zzsimrt.SiteTab))
 	debug.SetMaxStack(256 << 20)
 	debug.SetGCPercent(200)
